@@ -47,7 +47,8 @@ func init() {
 type c28Case struct {
 	// Part: "prog" (grammar/corpus program), "blt" (one builtin call),
 	// "pair" (two consecutive calls), "opts" (option vector), "params"
-	// (Params argument vector).
+	// (Params argument vector), "arith" (operator x boundary operands,
+	// c28_arith.go), "zoo" (state prelude x consulting call, c28_state.go).
 	Part    string `json:"part"`
 	Src     string `json:"src,omitempty"`
 	Variant string `json:"variant,omitempty"`
@@ -64,6 +65,8 @@ type c28Case struct {
 	// 1 = New(StdIO, Params), 2 = the option applied to an existing runner.
 	Args []string `json:"args,omitempty"`
 	How  int      `json:"how,omitempty"`
+	// Inter: the runner is built with interp.Interactive(true) (part "zoo").
+	Inter bool `json:"inter,omitempty"`
 	// WallMS / Steps are the hang guards (not oracles).
 	WallMS int `json:"wall_ms,omitempty"`
 	Steps  int `json:"steps,omitempty"`
@@ -168,8 +171,13 @@ func c28ChildMain() {
 			fmt.Fprintln(os.Stderr, "c28 child: bad case:", err)
 			os.Exit(3)
 		}
+		if cs.Part == "ping" {
+			out.WriteString("{}\n")
+			out.Flush()
+			continue
+		}
 		base := runtime.NumGoroutine()
-		if cs.Part != "prog" && cs.Part != "blt" && cs.Part != "pair" {
+		if cs.Part == "opts" || cs.Part == "params" {
 			e.dirty.Store(true) // these parts may use the default open handler
 		}
 		rep := e.run(cs)
@@ -448,6 +456,9 @@ func (e *c28Env) runProg(cs c28Case, rep *c28Reply) {
 	if params != nil {
 		opts = append(opts, interp.Params(params...))
 	}
+	if cs.Inter {
+		opts = append(opts, interp.Interactive(true))
+	}
 	r, err := interp.New(opts...)
 	if err != nil {
 		rep.NewErr = err.Error()
@@ -460,6 +471,11 @@ func (e *c28Env) runProg(cs c28Case, rep *c28Reply) {
 	rep.StepsHit = stepsHit.Load()
 	rep.Deadline = !rep.StepsHit && ctx.Err() != nil
 	cancel()
+	if cs.Part == "zoo" {
+		// listings of aliases, variables and traps follow Go's map order
+		e.outcome(rep, err, c28SortLines(out.String()), c28SortLines(errb.String()))
+		return
+	}
 	e.outcome(rep, err, out.String(), errb.String())
 }
 
